@@ -214,3 +214,60 @@ def self_check():
 
 
 self_check()
+
+
+def find_frames(framing, stream, limit=600):
+    """Every contiguous substring of `stream` that is a well-formed frame of this framing with a
+    correct integrity field -> list of dict(offset, end, uid, tid, pdu).  Over-approximates what a
+    sequential receiver may legitimately accept (sound for "only justified effects" oracles).
+    RTU frames are recognised for the lengths of the data-access/diagnostic functions and by a
+    brute-force scan of all (offset, length) pairs up to 260 bytes."""
+    n = len(stream)
+    out = []
+    if framing == 'tcp':
+        for o in range(0, n - 7):
+            ln = struct.unpack('>H', stream[o + 4:o + 6])[0]
+            if ln >= 2 and o + 6 + ln <= n:
+                tid, pid = struct.unpack('>HH', stream[o:o + 4])
+                out.append({'offset': o, 'end': o + 6 + ln, 'uid': stream[o + 6], 'tid': tid, 'pid': pid,
+                            'pdu': stream[o + 7:o + 6 + ln]})
+        return out
+    if framing == 'rtu':
+        for o in range(0, n - 3):
+            crc = 0xFFFF
+            top = min(n, o + 260)
+            for j in range(o, top):
+                crc = (crc >> 8) ^ _TABLE[(crc ^ stream[j]) & 0xFF]
+                # crc now covers stream[o..j]; frame would be stream[o..j] + 2 crc bytes
+                if j - o >= 1 and j + 3 <= n:
+                    if stream[j + 1] == (crc & 0xFF) and stream[j + 2] == (crc >> 8):
+                        out.append({'offset': o, 'end': j + 3, 'uid': stream[o], 'tid': None, 'pid': None,
+                                    'pdu': stream[o + 1:j + 1]})
+        return out
+    if framing == 'ascii':
+        starts = [i for i in range(n) if stream[i] == 0x3A]
+        for o in starts:
+            e = stream.find(b'\r\n', o)
+            while e != -1 and e - o <= limit:
+                try:
+                    p = parse_one('ascii', stream[o:e + 2])
+                    out.append({'offset': o, 'end': e + 2, 'uid': p['uid'], 'tid': None, 'pid': None, 'pdu': p['pdu']})
+                except FrameError:
+                    pass
+                e = stream.find(b'\r\n', e + 1)
+        return out
+    if framing == 'binary':
+        for o in range(n):
+            if stream[o] != 0x7B:
+                continue
+            for e in range(o + 5, min(n, o + limit)):
+                if stream[e] == 0x7D:
+                    try:
+                        p = parse_one('binary', stream[o:e + 1])
+                        out.append({'offset': o, 'end': e + 1, 'uid': p['uid'], 'tid': None, 'pid': None, 'pdu': p['pdu']})
+                    except FrameError:
+                        pass
+        return out
+    if framing == 'tls':
+        return [{'offset': 0, 'end': n, 'uid': None, 'tid': None, 'pid': None, 'pdu': stream}] if n else []
+    raise ValueError(framing)
